@@ -10,4 +10,20 @@ TEXTS = {
           "validated against the implementation on every enumerated lookup, not verified from the Rust text.",
   "technique": "Lean 4 proof (decide +kernel table obligations lifted by lemmas) + exhaustive model/implementation correspondence",
  },
+ "C05": {
+  "level": "Lean theorems over the Zobrist table regenerated from the implementation on every run: for ALL positions, changing exactly one component "
+           "(content of one square, side to move, one castling right, en-passant file) changes the from-scratch key; the table obligation (781 words non-zero and pairwise "
+           "distinct) is evaluated by the kernel. The indexing of the table by the model is tied to the code by the walk correspondence (keys of every explored position, "
+           "781 perturbations of every k-th explored position compared by count and checksum, explored keys bucketed by position identity).",
+  "note": "PARTIAL by necessity: the full statement (all pairs of distinct positions) is false for any 64-bit key by counting; it stays visible as C05_statement and is not claimed. "
+          "Trusted: Lean kernel, the table dump through the public ZKey API (gen_zobrist.py), harness/driver.",
+  "technique": "Lean 4 proof (XOR-fold algebra + decide +kernel over the regenerated table) + differential correspondence on explored positions",
+ },
+ "C17": {
+  "level": "Lean theorems for ALL boards: evaluate(mirror b) = evaluate b unconditionally (identical saturating computations on identical piece counts, via popcount(bswap x) = popcount x), "
+           "evaluate(swapTurn b) = -evaluate b under the material bound, with a kernel-checked counter-example showing the bound is needed. Model tied to the code by comparing "
+           "the evaluation of every walked position, of its mirror image and of its side-swapped twin (both built through FEN) with the model and with each other.",
+  "note": "Trusted: Lean kernel, piece values/loop order regenerated from simple_evaluator.rs by regex, harness/driver. The i16 wrap of count*value for > 36 queens is modelled (wrapI16) but outside the claim.",
+  "technique": "Lean 4 proof (bit-permutation lemma, saturating-arithmetic range lemmas) + differential correspondence",
+ },
 }
